@@ -75,6 +75,49 @@ class FakeDeferred:
     def body(self):
         return self.f(*self.a, **self.k)
 
+    # pollers run in a real thread that only advances when the case says so
+    thread = None
+    killed = False
+    error = None
+
+    def step(self):
+        '''one evaluation of the poller's loop condition; True when the thread
+        body has returned'''
+        import threading
+        if self.thread is None:
+            self.parked = threading.Event()
+            self.resume = threading.Event()
+            self.ended = threading.Event()
+
+            def run():
+                try:
+                    self.body()
+                except SystemExit:
+                    pass
+                except BaseException as e:   # noqa: BLE001
+                    self.error = e
+                finally:
+                    self.ended.set()
+                    self.parked.set()
+
+            self.thread = threading.Thread(target=run, daemon=True)
+            self.thread.verif_poller = self
+            self.thread.start()
+        else:
+            self.parked.clear()
+            self.resume.set()
+        self.parked.wait()
+        if self.error is not None:
+            e, self.error = self.error, None
+            raise e
+        return self.ended.is_set()
+
+    def kill(self):
+        if self.thread is not None and not self.ended.is_set():
+            self.killed = True
+            self.resume.set()
+            self.thread.join(2)
+
 
 class World:
     def __init__(self, initial=None):
@@ -154,13 +197,28 @@ class World:
         class Clock:                                  # time.sleep inside a poller = yield
             @staticmethod
             def sleep(_s):
-                raise StillPolling()
+                import threading
+                p = getattr(threading.current_thread(), 'verif_poller', None)
+                if p is None:
+                    raise StillPolling()
+                # a poller thread: park until the case schedules its next
+                # iteration (the loop condition is then re-evaluated by the
+                # SAME invocation of is_*_done, as in the running pipeline)
+                p.resume.clear()
+                p.parked.set()
+                p.resume.wait()
+                if p.killed:
+                    raise SystemExit()
 
         ST.time = Clock
         F.plow = lambda: None
         F.ARCHIVE = False
         F._busy.clear()
-        S.que.clear()
+        S.que = []
+        prev = getattr(World, 'current', None)
+        if isinstance(prev, World):
+            for p in prev.pollers:
+                p.kill()
         facs = {k: [] for k in dawgie.Factories}
         dawgie.pl.scan.for_factories = lambda *a, **k: facs
         dawgie.db.open = lambda *a, **k: None
@@ -201,7 +259,14 @@ class World:
             items.append(FakeJob('run.job', S.State.running))
         if q and not d:
             items.append(FakeJob('wait.job', S.State.waiting))
-        S.que[:] = items
+        # the scheduler both mutates its queue in place (complete: que.remove,
+        # defer: que.append/sort) and rebinds it (organize: que = sorted(...),
+        # build: que = []); the world alternates between the two
+        self.nenv = getattr(self, 'nenv', 0) + 1
+        if self.nenv % 2:
+            S.que = items
+        else:
+            S.que[:] = items
 
     # ---- observation -----------------------------------------------------
     def observe(self):
@@ -363,7 +428,8 @@ class World:
             p = self._poller(ev[1])
             if p is None or p.finished:
                 return 'Noop'
-            p.body()                 # raises StillPolling when the loop continues
+            if not p.step():         # the loop continues: the thread is parked in time.sleep
+                raise StillPolling()
             p.finished = True
         elif k == 'DoneCb':
             self.set_env(*ev[2:5])
